@@ -1084,6 +1084,8 @@ class Interp:
             return Lin.num(Fraction(str(v)) if isinstance(v, float) else v)
         if isinstance(v, bytes):
             return Lst([Lin.num(b) for b in v])  # byte strings are modelled as lists
+        if v is Ellipsis:
+            return Opaque("...")
         raise Undecided("constant %r" % (v,))
 
     def module_of(self, env) -> ModuleInfo:
@@ -1157,7 +1159,10 @@ class Interp:
         if isinstance(base, ModuleVal):
             if base.mod is not None:
                 return self.global_name(base.mod, attr, node)
-            return Builtin(base.ext + "." + attr)
+            full = base.ext + "." + attr
+            if full in EXT_CONSTS:
+                return Lin.num(EXT_CONSTS[full])
+            return Builtin(full)
         if isinstance(base, Tup):
             if base.cls:
                 fields = self.namedtuple_fields(self.idx.classes[base.cls]) if base.cls in self.idx.classes else None
@@ -1175,7 +1180,10 @@ class Interp:
         if isinstance(base, (str, Str)):
             return Builtin("str." + attr, base)
         if isinstance(base, Builtin):
-            return Builtin(base.name + "." + attr)
+            full = base.name + "." + attr
+            if full in EXT_CONSTS:
+                return Lin.num(EXT_CONSTS[full])
+            return Builtin(full)
         if isinstance(base, Lin):
             raise PyRaise("AttributeError", node)
         if isinstance(base, ExcVal):
@@ -1195,6 +1203,8 @@ class Interp:
 
     def e_Subscript(self, e, env):
         base = self.eval(e.value, env)
+        if isinstance(base, (Builtin, Opaque)):
+            return Opaque("typing expression")  # List[...], Tuple[...] inside cast()
         if isinstance(e.slice, ast.Slice):
             lo = self.index(self.eval(e.slice.lower, env)) if e.slice.lower is not None else None
             hi = self.index(self.eval(e.slice.upper, env)) if e.slice.upper is not None else None
@@ -1377,6 +1387,22 @@ class Interp:
                 return x.scale(1 / y.const, ("/", x.tree, y.tree))
             raise Undecided("division by a symbolic number")
         if isinstance(op, ast.Mod) and isinstance(a, (str, Str)):
+            if isinstance(a, str):
+                vals = b.items if isinstance(b, Tup) else [b]
+                conc = []
+                for v in vals:
+                    if isinstance(v, str):
+                        conc.append(v)
+                    elif isinstance(v, Lin) and v.is_const() and v.const.denominator == 1:
+                        conc.append(int(v.const))
+                    else:
+                        conc = None
+                        break
+                if conc is not None:
+                    try:
+                        return a % tuple(conc)
+                    except (TypeError, ValueError):
+                        raise PyRaise("TypeError", node)
             return Str("opaque", ("fmt",))
         if isinstance(op, (ast.BitAnd, ast.BitOr)):
             x, y = self.truth(a), self.truth(b)
@@ -1496,6 +1522,10 @@ class Interp:
             return None
         if n == "str" or n == "repr":
             v = args[0]
+            if isinstance(v, Lin) and v.is_const():
+                return str(int(v.const)) if v.const.denominator == 1 and not getattr(v, "is_float", False) else repr(float(v.const))
+            if isinstance(v, str) and n == "repr":
+                return repr(v)
             return v if isinstance(v, (str, Str)) else _StrOf(v)
         if n == "type":
             v = args[0]
@@ -1507,6 +1537,8 @@ class Interp:
             return Lst([x for x in self.iterate(args[1]) if self.truth(self.call_value(fnv, [x], {}))])
         if n == "map":
             return Lst([self.call_value(args[0], [x], {}) for x in self.iterate(args[1])])
+        if n in ("typing.cast", "cast"):
+            return args[1]
         if n in ("math.isclose",):
             return self.equal(args[0], args[1], node)
         if n in ("copy.deepcopy", "copy.copy"):
@@ -1711,9 +1743,17 @@ class Interp:
         raise Undecided("dict.%s" % m)
 
     def _str_method(self, m, recv, args, kwargs, node):
+        args = [int(a.const) if isinstance(a, Lin) and a.is_const() and a.const.denominator == 1 else a for a in args]
         if isinstance(recv, str):
-            if all(isinstance(a, (str, int)) for a in args) and m in ("strip", "lower", "upper", "split", "replace", "startswith", "endswith", "rstrip", "lstrip"):
-                r = getattr(recv, m)(*args)
+            if all(isinstance(a, (str, int)) for a in args) and m in ("strip", "lower", "upper", "split", "replace", "startswith", "endswith", "rstrip", "lstrip", "rfind", "find", "index", "count", "isdigit", "splitlines"):
+                try:
+                    r = getattr(recv, m)(*args)
+                except ValueError:
+                    raise PyRaise("ValueError", node)
+                if isinstance(r, bool):
+                    return r
+                if isinstance(r, int):
+                    return Lin.num(r)
                 return Lst(r) if isinstance(r, list) else r
             if m == "join":
                 parts = self.iterate(args[0])
@@ -1835,6 +1875,12 @@ def _load(t):
     n.ctx = ast.Load()
     return n
 
+
+EXT_CONSTS = {
+    "sys.float_info.epsilon": Fraction(1, 2 ** 52),
+    "sys.float_info.min": Fraction(1, 2 ** 1022),
+    "math.pi": Fraction(884279719003555, 281474976710656),
+}
 
 _BUILTIN_NAMES = {
     "len", "min", "max", "float", "int", "abs", "isinstance", "list", "tuple", "sorted", "reversed", "set", "enumerate",
